@@ -390,6 +390,11 @@ func (e *Explorer) ForkValue(t *smt.Term, signed bool, site string) int64 {
 			return int64(u)
 		}
 		choice = toInt(vals[0])
+		if len(vals) > 1 && e.curFn != nil {
+			e.Sh.mu.Lock()
+			e.Sh.ForkSites[e.curFn.String()+"#value"] += len(vals) - 1
+			e.Sh.mu.Unlock()
+		}
 		for k := len(vals) - 1; k >= 1; k-- {
 			alt := make([]int, len(e.taken)+1)
 			copy(alt, e.taken)
